@@ -10,6 +10,7 @@ Theorem dcd_roundtrip :
   forall ver cmds rest, dcd_wf ver cmds ->
   dcd_parse (dcd_bytes ver cmds ++ rest) = Ok (dcd_obj ver cmds) /\
   dcd_export (dcd_obj ver cmds) = dcd_bytes ver cmds /\
-  dcd_stable (dcd_obj ver cmds).
-Proof. intros ver cmds rest W. destruct (dcd_parse_spec ver cmds rest W). repeat split; try assumption. now apply dcd_spec_stable. Qed.
+  dcd_stable (dcd_obj ver cmds) /\
+  dcd_size (dcd_obj ver cmds) = hlen (dcd_bytes ver cmds).
+Proof. intros ver cmds rest W. destruct (dcd_parse_spec ver cmds rest W). repeat split; try assumption; [now apply dcd_spec_stable | apply dcd_obj_sized; apply W]. Qed.
 Print Assumptions dcd_roundtrip.
